@@ -510,6 +510,43 @@ func applyBaseline(prog *ssa.Program, all map[*ssa.Function]bool) []string {
 			break
 		}
 	}
+	// a baseline function that became a thin wrapper of a new variant of itself
+	// (`func (c *C) Verify(a string) error { return c.VerifyWithContext(context.Background(), a) }`):
+	// the mechanism lives in the variant now; the rules address the variant under the old name and
+	// see the wrapper as a new helper
+	shimFns = map[*ssa.Function]bool{}
+	for pass := 0; pass < 4; pass++ {
+		progress := false
+		for _, b := range bl.Funcs {
+			F := cur[b.Name]
+			if F == nil || shimFns[F] {
+				continue
+			}
+			G := shimTarget(F)
+			if G == nil || used[G] || known[short(G.String())] || G == F {
+				continue
+			}
+			if _, has := fnAlias[G]; has {
+				continue
+			}
+			if len(b.Features) < 3 {
+				continue // the baseline function was itself a one-line wrapper: nothing moved
+			}
+			sc := jaccard(b.Features, describeFn(G).Features)
+			if sc < 0.6 {
+				continue
+			}
+			fnAlias[G] = b.Name
+			fnAlias[F] = b.Name + "~shim"
+			used[G] = true
+			shimFns[F] = true
+			notes = append(notes, fmt.Sprintf("function %s is addressed as %s (%s became a wrapper that only forwards to it; body similarity %.2f)", short(G.String()), b.Name, b.Name, sc))
+			progress = true
+		}
+		if !progress {
+			break
+		}
+	}
 	resultAlias = map[*ssa.Function][]int{}
 	notes = append(notes, computeResultAliases(&bl, all)...)
 	return notes
@@ -1098,4 +1135,106 @@ func issuerAllowed(P *Prog, fn *ssa.Function, allowed []string, depth int) bool 
 		}
 	}
 	return true
+}
+
+// shimFns: baseline functions that are now one-call wrappers of a fresh variant (see applyBaseline).
+var shimFns = map[*ssa.Function]bool{}
+
+// shimTarget: F does nothing but call one function of its package with its own parameters (in
+// order, receiver included) plus constants / context.Background() and return that call's results.
+func shimTarget(F *ssa.Function) *ssa.Function {
+	if len(F.Blocks) != 1 || len(F.AnonFuncs) != 0 {
+		return nil
+	}
+	var call *ssa.Call
+	for _, in := range F.Blocks[0].Instrs {
+		switch x := in.(type) {
+		case *ssa.Call:
+			if c := x.Call.StaticCallee(); c != nil && c.Pkg != nil && c.Pkg.Pkg.Path() == "context" && (c.Name() == "Background" || c.Name() == "TODO") {
+				continue
+			}
+			if call != nil {
+				return nil
+			}
+			call = x
+		case *ssa.Extract, *ssa.Return, *ssa.DebugRef, *ssa.MakeInterface, *ssa.ChangeType, *ssa.Convert:
+		default:
+			return nil
+		}
+	}
+	if call == nil || call.Call.IsInvoke() {
+		return nil
+	}
+	G := call.Call.StaticCallee()
+	if G == nil || G.Pkg != F.Pkg || G.Parent() != nil || G.Blocks == nil {
+		return nil
+	}
+	if (G.Signature.Recv() == nil) != (F.Signature.Recv() == nil) {
+		return nil
+	}
+	// the parameters, in order, among the arguments; every other argument is a constant or a
+	// fresh root context
+	pi := 0
+	for _, a := range call.Call.Args {
+		a = strip(a)
+		if pi < len(F.Params) && a == ssa.Value(F.Params[pi]) {
+			pi++
+			continue
+		}
+		switch x := a.(type) {
+		case *ssa.Const:
+		case *ssa.Call:
+			if c := x.Call.StaticCallee(); c == nil || c.Pkg == nil || c.Pkg.Pkg.Path() != "context" {
+				return nil
+			}
+		default:
+			return nil
+		}
+	}
+	if pi != len(F.Params) {
+		return nil
+	}
+	// the results are the call's results, in order
+	ret, ok := F.Blocks[0].Instrs[len(F.Blocks[0].Instrs)-1].(*ssa.Return)
+	if !ok {
+		return nil
+	}
+	n := G.Signature.Results().Len()
+	if len(ret.Results) != n || F.Signature.Results().Len() != n {
+		return nil
+	}
+	for i, r := range ret.Results {
+		r = strip(r)
+		if n == 1 {
+			if r != ssa.Value(call) {
+				return nil
+			}
+			continue
+		}
+		ex, ok := r.(*ssa.Extract)
+		if !ok || ex.Tuple != ssa.Value(call) || ex.Index != i {
+			return nil
+		}
+	}
+	return G
+}
+
+// objAliasName: funcObjName, through the rename / wrapper resolution.
+func objAliasName(f *types.Func) string {
+	for fn, a := range fnAlias {
+		if fn.Object() == types.Object(f) {
+			return a
+		}
+	}
+	return funcObjName(f)
+}
+
+// shimObj: the function object is a baseline function that became a forwarding wrapper.
+func shimObj(f *types.Func) bool {
+	for fn := range shimFns {
+		if fn.Object() == types.Object(f) {
+			return true
+		}
+	}
+	return false
 }
